@@ -2011,8 +2011,17 @@ class CodeGenerator(NodeVisitor):
         old_ctx_name = self.temporary_identifier()
         saved_ctx = frame.eval_ctx.save()
         self.writeline(f"{old_ctx_name} = context.eval_ctx.save()")
+        # Revert in a finally block. The context of an imported module
+        # outlives the render, so leaving the block through an exception
+        # (or break/continue) must not leave its eval context modified.
+        self.writeline("try:")
+        self.indent()
         self.visit_EvalContextModifier(node, frame)
         for child in node.body:
             self.visit(child, frame)
+        self.outdent()
         frame.eval_ctx.revert(saved_ctx)
+        self.writeline("finally:")
+        self.indent()
         self.writeline(f"context.eval_ctx.revert({old_ctx_name})")
+        self.outdent()
